@@ -1,7 +1,9 @@
 //! vh: conformance harness. `vh <engine> --cases <file> --out <trace.ndjson> [--seed N] [--tier quick|thorough]`
 mod common;
 mod eng_bereq;
+mod daemon_seq;
 mod eng_client;
+mod eng_daemon;
 mod eng_gpu;
 mod eng_kern;
 mod eng_server;
@@ -56,6 +58,10 @@ fn main() {
             let cases = read_cases(&arg(&args, "--cases").expect("--cases"));
             let n: usize = arg(&args, "--random").and_then(|s| s.parse().ok()).unwrap_or(0);
             eng_valid::run(&cases, &mut trace, seed, n);
+        }
+        "daemon" => {
+            let cases = read_cases(&arg(&args, "--cases").expect("--cases"));
+            eng_daemon::run(&cases, &mut trace, seed);
         }
         "kern" => {
             let cases = read_cases(&arg(&args, "--cases").expect("--cases"));
